@@ -232,6 +232,38 @@ ADVERSARIAL_SOURCES = [
 ]
 
 
+def arithmetic_sources(ctx, n_random):
+    """arithmetic whose leaves are NOT all literals: every unary operator over every binary operator (and the other nestings)
+    with leaves drawn from literals, names, attribute access, subscripts and calls that would import a module or open a file
+    if they were ever evaluated; in several syntactic contexts.  Nothing here may reach eval()."""
+    unary = ['-', '+', '~', 'not ']
+    binary = ['+', '-', '*', '/', '//', '%', '**', '<<', '>>', '&', '|', '^', '@']
+    danger = ["__import__('colorsys').ONE_THIRD", "open('/nonexistent_pmv_dir/marker', 'w').write('x')", 'some_name', 'obj.attr', 'seq[0]', 'func(1)', "len('ab')", 'int']
+    lits = ['1', '2.5', '3j', 'True', '10']
+    out = []
+    for u in unary:
+        for b in binary:
+            for (x, y) in [(danger[0], '1'), ('2', danger[1]), ('some_name', 'other_name'), ('1', '2'), ('obj.attr', '2.5'), ('func(1)', 'seq[0]')]:
+                out.append('r = %s(%s %s %s)' % (u, x, b, y))
+                out.append('r = (%s%s) %s %s' % (u, x, b, y))
+                out.append('r = %s %s (%s%s)' % (x, b, u, y))
+            out.append('r = %s%s(%s %s 2)' % (u, u, danger[0], b))
+            out.append('r = %s(1 %s 2) %s %s' % (u, b, b, danger[1]))
+    ctxs = ['r = {E}', 'def f(a={E}):\n    return a', '@deco({E})\ndef f():\n    pass', "r = f'{{{E}}}'", 'r = seq[{E}]', 'r = [{E} for i in range(3)]', 'lambda: {E}',
+            'class K({E}):\n    pass', 'assert {E}', 'with {E} as w:\n    pass', 'r = {E} if {E} else 0']
+    for _ in range(n_random):
+        def gen(d):
+            c = ctx.rng.random()
+            if d <= 0 or c < 0.25:
+                return ctx.rng.choice(danger + lits + lits)
+            if c < 0.5:
+                return '%s(%s)' % (ctx.rng.choice(unary), gen(d - 1))
+            return '(%s %s %s)' % (gen(d - 1), ctx.rng.choice(binary), gen(d - 1))
+        e = gen(ctx.rng.randint(1, 4))
+        out.append(ctx.rng.choice(ctxs).replace('{E}', e))
+    return out
+
+
 def audit_stage(ctx, sources):
     # warm up lazy imports
     audited_minify("x = f'{a!r:>{w}}{b\"b\"}{\"s\"}' + f'{1 + 2}'")
@@ -303,7 +335,7 @@ def run(ctx):
         strings.append(''.join(ctx.rng.choice(ALPHABET + EXTRA_CHARS) for _ in range(ctx.rng.randint(1, 40))))
     ministring_stage(ctx, strings)
     strlex_validation(ctx, ctx.scale(500, 8000))
-    srcs = list(ADVERSARIAL_SOURCES) + fstring_sources(ctx, ctx.scale(150, 3000))
+    srcs = list(ADVERSARIAL_SOURCES) + fstring_sources(ctx, ctx.scale(150, 3000)) + arithmetic_sources(ctx, ctx.scale(150, 3000))
     audit_stage(ctx, srcs)
     for k in ctx.known:
         if k.get('replay_source'):
